@@ -5,6 +5,9 @@ import SuppModel.Props.C13
 #print axioms SuppModel.Props.C13.C13_history
 #print axioms SuppModel.Props.C13.C13_layouts
 #print axioms SuppModel.Props.C13.C13_layouts_history
+#print axioms SuppModel.Props.C13.C13_order_implies_query
+#print axioms SuppModel.Props.C13.C13_layouts_order
+#print axioms SuppModel.Props.C13.C13_layouts_history_order
 #print axioms SuppModel.Props.C13.C13_bisect_sorted
 #print axioms SuppModel.Props.C13.C13_insert_sorted
 #print axioms SuppModel.Props.C13.exPhi_preserves
